@@ -3,6 +3,7 @@ import ast
 
 from .. import util
 from ..interp import Interp, Path, exc_value, show, strip_sites, subterms, NONE
+from .. import slots
 from ..report import Undecided
 
 SELF = ("sym", "self")
@@ -102,8 +103,25 @@ def check_domain(chk, rule, name, t, what, node):
     return True
 
 
+def weight_attr():
+    """the attribute holding the name of the weighting property (assigned from the constructor's `weight`)"""
+    prog, cls = _PROG["prog"], _PROG["wcls"]
+    return slots.attr_from_param(prog, cls, "weight")
+
+
 def weight_of(x):
-    return ("call", GETATTR, (x, ("attr", SELF, "_weight")), ())
+    return ("call", GETATTR, (x, ("attr", SELF, weight_attr())), ())
+
+
+def total_weight_getter(prog, cls):
+    """the private property that sums the children's weights"""
+    for nm, fis in cls.methods.items():
+        if nm in ("supply", "demand", "utilisation", "allocation", "children"):
+            continue
+        g = prog.pick(fis, "getter")
+        if g is not None and "sum(" in ast.unparse(g.node) and weight_attr() in ast.unparse(g.node):
+            return g
+    return None
 
 
 def mul_set(t):
@@ -117,6 +135,8 @@ def composite_rules(chk, qual, weighted):
     prog = chk.program
     cls = prog.cls(qual)
     _PROG.update(prog=prog, cls=cls)
+    if weighted:
+        _PROG["wcls"] = cls
     getter = prog.pick(cls.methods.get("demand", []), "getter")
     setter = prog.pick(cls.methods.get("demand", []), "setter")
     if getter is None or setter is None:
@@ -127,9 +147,9 @@ def composite_rules(chk, qual, weighted):
     # total weight term (weighted)
     total = None
     if weighted:
-        tw = prog.lookup_method(cls, "_total_weight", kind="getter")
+        tw = total_weight_getter(prog, cls)
         if tw is None:
-            raise Undecided("no _total_weight property", cls.node)
+            raise Undecided("no private property summing the children's weights", cls.node)
         outs = make_interp(chk, tw).run()
         if len(outs) != 1 or outs[0].kind != "return":
             raise Undecided("_total_weight is not a single expression", tw.node)
@@ -358,6 +378,7 @@ def composite_rules(chk, qual, weighted):
 
 def weight_validation(chk):
     prog = chk.program
+    _PROG.update(prog=prog, wcls=prog.cls(WEIGHTED))
     rule = "O7.6"
     init = prog.method(WEIGHTED, "__init__")
     it = Interp(prog, init, assert_raises=True, inline=lambda f, ct: f.qual == "cobald.utility:enforce")
@@ -378,8 +399,8 @@ def weight_validation(chk):
     for o in outs:
         if o.kind in ("normal", "return"):
             st = {e[1][2]: e[2] for e in o.path.events if e[0] == "store" and e[1][1] == SELF}
-            if st.get("_weight") != ("sym", "weight"):
-                chk.bad(rule, init.qual, "the weight attribute name is stored as %s" % show(st.get("_weight")), node=init.node, stmt="weight-store")
+            if ("sym", "weight") not in st.values():
+                chk.bad(rule, init.qual, "the weight attribute name is not stored unchanged", node=init.node, stmt="weight-store")
             ch = st.get("children")
             if ch is None or ("sym", "children") not in list(subterms(ch)):
                 chk.bad("O7.2", init.qual, "the constructor does not keep the given children", node=init.node, stmt="children-store")
